@@ -125,6 +125,10 @@ func suiteGated(h *H) {
 		{ // a list that announces far more than arrives (the source shrank; or a peer that lies): nothing may be reserved and left behind
 			{name: "huge-announced", kind: 'f', oldKind: 'f', old: []byte("previous content"), new: mkContent(700, 11), announce: 1 << 62},
 			{name: "also", kind: 'f', new: mkContent(400, 12), announce: 5 << 20},
+			// holes: runs of zero bytes at the head, in the middle and at the tail, announced shorter and longer than sent
+			{name: "zeros-tail-shrunk", kind: 'f', new: append(mkContent(500, 13), make([]byte, 9000)...), announce: 300},
+			{name: "zeros-tail-grown", kind: 'f', oldKind: 'f', old: []byte("old"), new: append(mkContent(500, 14), make([]byte, 5000)...), announce: 70000},
+			{name: "zeros-head", kind: 'f', new: append(make([]byte, 8192), mkContent(100, 15)...), announce: 100},
 		},
 		{
 			{name: strings.Repeat("L", 250), kind: 'f', oldKind: 'f', old: []byte("very long name, old"), new: mkContent(1000, 9)},
@@ -369,8 +373,10 @@ func suiteGated(h *H) {
 			}()
 			return done
 		}
-		// ---- the uninterrupted session
-		{
+		// ---- the uninterrupted session, plain and with every option of rsync's vocabulary that changes how the receiver
+		// writes its files, as far as this implementation accepts it
+		for _, wo := range append([][]string{nil}, writeOptsAll(base)...) {
+			extraOpts = wo
 			dst := setup()
 			out := <-runSession(dst, &gateReader{data: stream, gate: -1, cut: -1, arrived: make(chan struct{}), release: make(chan struct{})})
 			v := ""
@@ -378,6 +384,9 @@ func suiteGated(h *H) {
 				for _, f := range files {
 					if s := stateOf(dst, f); s != "new" {
 						v = fmt.Sprintf("FAIL[C01] after a successful session %q is %s", shortName(f.name), s)
+						if strings.HasPrefix(s, "other") {
+							v += " || FAIL[C03] what was installed under the name is not the data whose checksum was verified"
+						}
 					}
 				}
 			} else if strings.Contains(out, "name too long") {
@@ -390,9 +399,18 @@ func suiteGated(h *H) {
 					v = "FAIL[C04] after the session: " + w
 				}
 			}
-			h.emit(fmt.Sprintf("!gated seed=%d variant=%d full-session", h.seed, vi), strings.SplitN(out, ":", 2)[0], v, out == "ok")
+			if strings.HasPrefix(out, "optserr") {
+				os.RemoveAll(dst)
+				continue
+			}
+			tag := "full-session"
+			if wo != nil {
+				tag += fmt.Sprintf(" opts=%v", wo)
+			}
+			h.emit(fmt.Sprintf("!gated seed=%d variant=%d %s", h.seed, vi, tag), strings.SplitN(out, ":", 2)[0], v, out == "ok")
 			os.RemoveAll(dst)
 		}
+		extraOpts = nil
 		// ---- frozen at byte N
 		for _, n := range positions {
 			dst := setup()
@@ -487,8 +505,7 @@ func suiteGated(h *H) {
 		// the session must fail, and every listed path holds its complete old or new state, nothing partial
 		// the same with every option of rsync's vocabulary that changes how the receiver writes its files, as far
 		// as this implementation accepts it (an option it does not know is a usage error and the case is void)
-		writeOpts := [][]string{nil, {"--preallocate"}, {"--inplace"}, {"--partial"}, {"--sparse"}, {"--append"}, {"--whole-file"},
-			{"--delay-updates"}, {"--temp-dir=" + base}, {"--partial-dir=.rsync-partial"}, {"--fsync"}, {"--backup"}, {"-v"}, {"--progress"}}
+		writeOpts := append([][]string{nil}, writeOptsAll(base)...)
 		for _, wo := range writeOpts {
 			extraOpts = wo
 			for _, limit := range []uint64{1, 300, 640, 1024, 1400} {
@@ -550,6 +567,12 @@ func suiteGated(h *H) {
 			os.RemoveAll(dst)
 		}
 	}
+}
+
+// writeOptsAll: options of rsync's vocabulary that change how a receiver writes its files
+func writeOptsAll(base string) [][]string {
+	return [][]string{{"--preallocate"}, {"--inplace"}, {"--partial"}, {"--sparse"}, {"-S"}, {"--append"}, {"--whole-file"},
+		{"--delay-updates"}, {"--temp-dir=" + base}, {"--partial-dir=.rsync-partial"}, {"--fsync"}, {"--backup"}, {"-v"}, {"--progress"}}
 }
 
 func shortName(s string) string {
